@@ -180,6 +180,10 @@ func Pick(quick, thorough int) int {
 	return quick
 }
 
+// RaceMode reports whether this is the native confirmation run under the race detector
+// ($VERIF_RACE set by the replay driver); always false inside the engine.
+func RaceMode() bool { return os.Getenv("VERIF_RACE") != "" }
+
 // Symbolic reports whether the harness runs inside the symbolic executor.
 func Symbolic() bool { return false }
 
